@@ -35,7 +35,7 @@ func (c06) Describe() CheckInfo {
 		},
 		RealCode:       []string{"gopatch main()/runMain/mainCmd.Run, loader, patch.Parse/File.Apply, internal/*, go-flags, pkg/diff, x/tools/imports, go-intervals, go/parser, go/printer"},
 		Stubs:          []string{"package os (simulated filesystem, streams, exit)", "path/filepath filesystem half", "io/ioutil"},
-		RequiredProbes: []string{"unmatched-noncanonical", "unmatched-with-matching-neighbour", "print-only-echo", "diff-mode", "api-apply-unmatched", "verbose", "echo-adjacency-checked", "unmatched-readonly-or-odd-mode", "api-earlier-call-on-shared-patch", "fault-fired", "fault-on-stdout-in-print-mode", "many-files-under-descriptor-limit"},
+		RequiredProbes: []string{"unmatched-noncanonical", "unmatched-with-matching-neighbour", "print-only-echo", "diff-mode", "api-apply-unmatched", "verbose", "echo-adjacency-checked", "unmatched-readonly-or-odd-mode", "api-earlier-call-on-shared-patch", "fault-fired", "fault-on-stdout-in-print-mode", "many-files-under-descriptor-limit", "line-directive-names-sibling-file"},
 	}
 }
 
@@ -110,7 +110,14 @@ func (c06) Gen(env *Env, seed uint64, tier string, i int) *Case {
 					ms = append(ms, ch.Marker)
 				}
 			}
-			c.AddFile(fmt.Sprintf("%smt%d.go", dir, j), MatchingFile(r, cs, "canonical", ""), "match", ms, "")
+			hdr := ""
+			if r.Chance(1, 5) && len(c.Files) > 0 {
+				// positions in this file are attributed to ANOTHER file of the run
+				o := c.Files[r.Intn(len(c.Files))]
+				hdr = "//line " + r.Pick([]string{o.Path, strings.TrimPrefix(o.Path, ProjDir+"/"), path.Base(o.Path)}) + ":1\n"
+				c.Extra["line_names_sibling"] = "1"
+			}
+			c.AddFile(fmt.Sprintf("%smt%d.go", dir, j), MatchingFile(r, cs, "canonical", hdr), "match", ms, "")
 		default:
 			c.AddFile(fmt.Sprintf("%sbad%d.go", dir, j), UnparseableFile(r), "unparseable", nil, "")
 		}
@@ -338,6 +345,9 @@ func (c06) Eval(env *Env, c *Case) []Violation {
 	}
 	if c.Extra["fd_limit"] == "1" {
 		env.Probe("many-files-under-descriptor-limit")
+	}
+	if c.Extra["line_names_sibling"] == "1" {
+		env.Probe("line-directive-names-sibling-file")
 	}
 	apiCache := map[int]Applier{}
 	stdoutPos := 0
